@@ -108,7 +108,13 @@ def run(ctx):
             try:
                 R = fn(A, B)
             except Exception as e:  # noqa
-                ctx.violation("exception", f"A {opn} B raised {type(e).__name__}: {e}", dict(case, op=opn))
+                key = None
+                if opn == "sub":
+                    bc = B.graph_.tocsr()
+                    ac = A.graph_.tocoo()
+                    if all(bc[i, j] == 1.0 for i, j in zip(ac.row, ac.col)):
+                        key = "C18:empty-combined-graph"      # recorded known finding: the contrast graph has no edge left
+                ctx.violation("exception", f"A {opn} B raised {type(e).__name__}: {e}", dict(case, op=opn), key=key)
                 continue
             g = sparse_to_dict(R.graph_)
             S = R.graph_.tocsr()
